@@ -137,6 +137,53 @@ fn sweep_range(name: &str, lo: i128, hi: i128, full_every: u64, rec: &Recorder, 
     t
 }
 
+/// date-times built from total nanoseconds through a ZONE equal those built from the (seconds, nanoseconds) pair:
+/// counts around every transition of table and rule zones, before and after the epoch
+fn sweep_zone_lookups(rec: &Recorder) -> Tally {
+    use tz::timezone::{AlternateTime, MonthWeekDay, RuleDay, Transition, TransitionRule};
+    let lt = |o: i32, d: bool, n: &[u8]| LocalTimeType::new(o, d, Some(n)).unwrap();
+    let types = [lt(0, false, b"STD"), lt(3600, true, b"DST")];
+    let trans = [Transition::new(-86400 * 400, 1), Transition::new(-86400, 0), Transition::new(-3600, 1), Transition::new(-1, 0), Transition::new(0, 1), Transition::new(1, 0), Transition::new(3600, 1), Transition::new(86400, 0)];
+    let fixed = Some(TransitionRule::Fixed(types[0]));
+    let m = |a: u8, b: u8, c: u8| RuleDay::MonthWeekDay(MonthWeekDay::new(a, b, c).unwrap());
+    let us = AlternateTime::new(lt(-18000, false, b"EST"), lt(-14400, true, b"EDT"), m(3, 2, 0), 7200, m(11, 1, 0), 7200).unwrap();
+    let us_types = [*us.std(), *us.dst()];
+    let us_rule = Some(TransitionRule::Alternate(us));
+    let none = None;
+    let zones = [TimeZoneRef::new(&trans, &types, &[], &fixed).unwrap(), TimeZoneRef::new(&trans[..7], &types, &[], &none).unwrap(), TimeZoneRef::new(&[], &us_types, &[], &us_rule).unwrap()];
+    let cyc = refmodel::cal::Cycle::build();
+    let spec = refmodel::rule::RuleSpec { std_off: -18000, dst_off: -14400, start: refmodel::rule::Day::M(3, 2, 0), start_time: 7200, end: refmodel::rule::Day::M(11, 1, 0), end_time: 7200 };
+    let mut instants: Vec<i64> = trans.iter().map(|t| t.unix_leap_time()).collect();
+    for y in [1900i64, 1955, 1969, 1970, 1971, 2024] {
+        instants.push(spec.s(&cyc, y));
+        instants.push(spec.e(&cyc, y));
+    }
+    let mut tl = Tally::default();
+    for z in zones {
+        for &t in &instants {
+            for ds in -2i128..=2 {
+                for dn in [-1i128, 0, 1, 2, 499_999_999, 999_999_998, 999_999_999] {
+                    let n = (t as i128 + ds) * G + dn;
+                    tl.evals += 1;
+                    let (q, r) = ref_split(n);
+                    let a = DateTime::from_total_nanoseconds(n, z);
+                    let b = DateTime::from_timespec(q as i64, r, z);
+                    let same = match (&a, &b) {
+                        (Ok(x), Ok(y)) => same_dt(x, y) && x.total_nanoseconds() == n,
+                        (Err(x), Err(y)) => format!("{x:?}") == format!("{y:?}"),
+                        _ => false,
+                    };
+                    if !same {
+                        rec.violation("zone_lookups", json!({"kind":"n","n":n.to_string()}), json!(format!("from_timespec({q}, {r}, zone): {b:?}")), json!(format!("{a:?}")));
+                    }
+                }
+            }
+        }
+    }
+    rec.sub("zone_lookups", json!({"evaluations": tl.evals}));
+    tl
+}
+
 pub fn run(args: &Args) -> i32 {
     let rec = Recorder::new(args, "exploration");
     let thorough = args.thorough();
@@ -156,6 +203,33 @@ pub fn run(args: &Args) -> i32 {
     for (name, c) in &centers {
         total = total.merge(sweep_range(&format!("window_{name}"), c - w, c + w, 1, &rec, &ltts));
     }
+    // the nanosecond count itself crossing machine-integer limits: +-2^k for every k, i64/u64 limits
+    let w2: i128 = if thorough { 1 << 16 } else { 1 << 12 };
+    let mut nwin = 0u64;
+    for k in 0..127u32 {
+        let p = 1i128 << k;
+        for c in [p, -p] {
+            let t = sweep_range(&format!("pow2_{}{k}", if c < 0 { "m" } else { "p" }), c - w2, c + w2, 1, &rec, &ltts);
+            nwin += t.evals;
+            total = total.merge(t);
+        }
+    }
+    for (name, c) in [("i64_max", i64::MAX as i128), ("i64_min", i64::MIN as i128), ("u64_max", u64::MAX as i128), ("i64_max_x2", 2 * (i64::MAX as i128))] {
+        let lw: i128 = if thorough { 1 << 28 } else { 1 << 23 };
+        let t = sweep_range(&format!("limit_{name}"), c - lw, c + lw, 16, &rec, &ltts);
+        nwin += t.evals;
+        total = total.merge(t);
+    }
+    {
+        // collapse the 254 power-of-two windows into one evidence entry
+        let mut sub = rec.sub.lock().unwrap();
+        let keys: Vec<String> = sub.keys().filter(|k| k.starts_with("pow2_")).cloned().collect();
+        for k in keys {
+            sub.remove(&k);
+        }
+        sub.insert("windows_around_pow2_and_integer_limits".into(), json!({"windows": 254 + 4, "evaluations": nwin}));
+    }
+    total = total.merge(sweep_zone_lookups(&rec));
     total = total.merge(sweep_range("i128_min", i128::MIN, i128::MIN + w, 1, &rec, &ltts));
     total = total.merge(sweep_range("i128_max", i128::MAX - w, i128::MAX, 1, &rec, &ltts));
     // product of boundary seconds x boundary nanoseconds
